@@ -303,6 +303,25 @@ def check(src, rep):
                               "decoding can disagree, and a layout picked from a few octets rejects lists the grammar accepts", file, fn_.node.lineno if fn_ else 1)
             elif not got_:
                 rep.undecide(f"R5 cannot see which grammar {fname_} parses its input with")
+    # a shortcut in an entry point (an answer computed without the grammar) must give the documented dictionary: list 1 bodies through decode_notification_body (E-ABS;
+    # where the interpreter reaches the grammar's parse() the sample says nothing and the rules above decide)
+    dnb = M.funcs.get(f"{MOD}.decode_notification_body")
+    if dnb is not None:
+        try:
+            MANF, API = ce.eval(ast.parse("FIELD_METER_MANUFACTURER", mode="eval").body, {}, "obis_map"), ce.eval(ast.parse("FIELD_ACTIVE_POWER_IMPORT", mode="eval").body, {}, "obis_map")
+        except NotConstant:
+            MANF = API = None
+        n_short = 0
+        for reg in (0x01020304, 0, 0xFFFFFFFF, 0x00000100) if MANF else ():
+            body_ = bytes((0x02, 0x01, 0x06)) + reg.to_bytes(4, "big")
+            r_ = AbsEval(M).apply(dnb, [body_])
+            if r_[0] == "value" and isinstance(r_[1], dict):
+                n_short += 1
+                if r_[1] != {MANF: "Kaifa", API: reg}:
+                    rep.violation("R5", f"kaifa.{dnb.name}", "shortcut", "an answer computed without the grammar differs from the documented decoding of the list (frame and bare-body decoding disagree, "
+                                  "or the register is not the transmitted 32-bit value)", file, dnb.node.lineno, witness=f"list 1 body {body_.hex()} -> {r_[1]!r}, documented: power {reg}"[:240])
+                    break
+        rep.count("entry_shortcut_samples", n_short)
     from sa.decoders import octet_string_text_finding
     otf = octet_string_text_finding(w)
     if otf:
